@@ -33,7 +33,7 @@ def run_dir(name):
 
 def prepare(name, bindir=None, poll_secs=1, exe="verif-agent"):
     """Per-run directory with a hard link of the harness executable and its own proxy-agent.json."""
-    bindir = bindir or os.path.join(util.BUILD, "cargo", "agent", "release")
+    bindir = bindir or build.bindir("agent")
     d = run_dir(name)
     dst = os.path.join(d, exe)
     try:
